@@ -346,14 +346,17 @@ EnvHandshake(x0, res) ==    \* res: "ok" | error class reported by the helper
 
 \* ------------------------------------------------------------ device I/O
 CanReceive(x) == x.tr = "open" /\ ~x.cm /\ x.fh \in {"ready"}
-EnvChunk(x0, ms) ==
-  LET x == Begin(x0) IN
+EnvChunkBody(x, ms) ==
   IF ~CanReceive(x) THEN x
   ELSE LET y == DataReceived(x, ms) IN
        \* an undecodable payload escapes data_received: asyncio force-closes the transport
        IF \E i \in 1..Len(ms) : ms[i].k = "garbage" /\ (\A j \in 1..i - 1 : ms[j].k # "garbage")
           /\ y.cs = "closed" /\ y.fatal = "ProtocolAPIError" /\ x.cs # "closed"
        THEN [y EXCEPT !.tr = IF @ = "open" THEN "closed" ELSE @] ELSE y
+EnvChunk(x0, ms) == EnvChunkBody(Begin(x0), ms)
+\* the Noise handshake reply and application frames in ONE chunk: from the moment the handshake is complete
+\* the frames that follow are the connection's, whatever the finish phase has got to
+EnvHandshakeChunk(x0, res, ms) == IF ms = <<>> THEN EnvHandshake(x0, res) ELSE EnvChunkBody(EnvHandshake(x0, res), ms)
 
 \* stray bytes instead of a frame: the helper reports and closes
 EnvJunk(x0, cls) ==
